@@ -455,7 +455,17 @@ namespace vc
         }
 
         // result of a creating joint command
-        void joint_done(Ret& rt, std::unique_ptr<HJ>& h)
+        using JPS = fm::joint_ptr<J, SLog>;
+        struct HJS : PtrHolder<JPS, HJS>
+        {
+            using PtrHolder<JPS, HJS>::PtrHolder;
+            long owner_j() const override
+            {
+                return joint_serial(static_cast<const void*>(this->p.get()));
+            }
+        };
+        template <class HX>
+        void joint_done(Ret& rt, std::unique_ptr<HX>& h)
         {
             if (h && h->p.get())
             {
@@ -598,6 +608,28 @@ namespace vc
                 emit_call(cx.c, op.c_str(), s_new, src, cl ? F_COPY : F_MOVE, -1, k, add);
                 Ret                 rt;
                 std::unique_ptr<HJ> h;
+                // clone s k 1: through the stateless face of the allocator, passed as a temporary (the helpers'
+                // overloads for const references); the clone lives in a joint_ptr<J, SLog>
+                bool stateless = cl && c.arg(2, 0) != 0 && cx.alloc == cx.allocs[0];
+                if (so && stateless)
+                {
+                    std::unique_ptr<HJS> hs;
+                    rt.vs0 = so->value_sum();
+                    rt.cl0 = static_cast<long>(so->cap_left());
+                    guarded(rt, k, [&] { hs.reset(new HJS(fm::clone_joint(SLog{}, *so))); });
+                    rt.vs1 = so->value_sum();
+                    joint_done(rt, hs);
+                    rt.g2 = at<HJ>(cx, src)->owner_j();
+                    if (hs && hs->p.get())
+                    {
+                        raws.erase(hs->p.get());
+                        log_pieces(cx, hs->p.get());
+                    }
+                    log_pieces(cx, so);
+                    cx.slots.push_back(std::move(hs));
+                    emit_ret(cx.c, op.c_str(), rt);
+                    return true;
+                }
                 if (!so)
                     rt.r = "empty";
                 else
